@@ -7,6 +7,7 @@
    own overflow guard (abort) is reachable. *)
 From AL Require Import Base Api Mutex MutexApi MutexInv.
 From AL.Tie Require Tie_Mutex.
+From AL.Sched Require Import MutexSched MutexOrd.
 
 Theorem C01_excl_hist : forall ops : list mop,
   N.of_nat (length ops) < OPS_BOUND ->
@@ -19,6 +20,25 @@ Theorem C01_word_counts_holders : forall ops : list mop,
   sw0 (m_sh (mrun ops)) = tickets (m_futs (mrun ops)) + N.of_nat (length (m_guards (mrun ops))).
 Proof. intros ops B. apply (run_WInv ops B). Qed.
 
+(* ---- schedule half: every interleaving of the atomic operations on the state word, ANY number of
+   threads, no bound on preemptions or length; [run gen_mords n sched] executes the schedule [sched]
+   (a list of (thread, site) pairs) on n threads, with the Orderings read from the source ---- *)
+Theorem C01_excl_sched : forall (n : nat) (sched : list (nat * action)),
+  holders (g_thr (run gen_mords n sched)) <= 1 /\
+  g_w (run gen_mords n sched) = 2 * starvers (g_thr (run gen_mords n sched)) + holders (g_thr (run gen_mords n sched)).
+Proof. intros n sched. destruct (run_Excl gen_mords n sched) as (E & L). split; assumption. Qed.
+
+(* ---- happens-before half (view semantics): at every point of every schedule, the thread that holds the
+   lock has in its view the ticket of every earlier guard drop (everything done to the value under any
+   earlier guard), and when nobody holds it the state word's message view carries them all ---- *)
+Theorem C01_hb_view : forall (n : nat) (sched : list (nat * action)), Hb (run gen_mords n sched).
+Proof. intros n sched. apply run_Hb. exact mutex_ord_premises. Qed.
+
+Example C01_sched_nonvacuous :
+  let g := run gen_mords 3 [(0, ACas01 0); (1, ACas01 2); (1, AAdd2); (0, AUnlock); (2, ACas01 1); (1, AFetchOr); (1, ASub2); (1, AUnlock)]%nat in
+  g_w g = 0 /\ g_issued g = [1; 0]%nat /\ holders (g_thr g) = 0.
+Proof. vm_compute. repeat split. Qed.
+
 (* non-vacuity: a contended history that goes through the starved path and ends
    with a guard alive, a starved waiter and an ordinary waiter *)
 Example C01_nonvacuous :
@@ -29,3 +49,5 @@ Proof. vm_compute. repeat split. Qed.
 
 Print Assumptions C01_excl_hist.
 Print Assumptions C01_word_counts_holders.
+Print Assumptions C01_excl_sched.
+Print Assumptions C01_hb_view.
